@@ -396,6 +396,13 @@ impl World {
                         format!("refresh-accepted/operator={opname}"),
                         format!("keep={keep} bytes {}", bytes.len()),
                     );
+                    if self.wants(Class::OkErrRefresh) && !self.wants(Class::Forged) {
+                        self.fail(
+                        Class::OkErrRefresh,
+                        format!("refresh/expected-err-got-ok/forged-key/operator={opname}"),
+                        format!("keep={keep} bytes {}", bytes.len()),
+                    );
+                    }
                 }
                 Err(_) => {
                     self.stats.probe("forged-rejected-at-verify");
@@ -1125,6 +1132,8 @@ impl World {
                 self.auth.m.next_rev = next_rev;
                 self.auth.m.next_ident = next_ident;
                 self.lost_windows.push((t, self.now));
+                // the rolled-back MSK may predate the updates that recorded disabled attributes
+                self.disabled_ids.clear();
                 // later backups belong to the lost window
                 self.auth.backups.truncate(idx + 1);
                 if let Ok(mpk) = self.auth.msk.mpk() {
